@@ -628,6 +628,13 @@ where
     | [] => True
     | e :: es => NoEmptyMul e ∧ NoEmptyMulList es
 
+theorem unitNameBits_noPanic (f : Int → Int → Int) (a b : NameMap × Numeric) :
+    NoPanic (unitNameBits (Number.bitop f) a b) := by
+  unfold unitNameBits
+  split
+  · exact noPanic_err _
+  · exact noPanic_bind (bitop_noPanic f _ _) (fun _ _ => noPanic_ok _)
+
 mutual
 /-- `eval_unit_name`: the zero divisors and `todo!()` arms are error values (after the fixes),
 and `exprs[1..]` is never taken of an empty product -/
@@ -657,13 +664,22 @@ theorem evalUnitName_noPanic (ctx : Ctx) (hc : CtxOK ctx) : ∀ e : Expr, NoEmpt
     have h' : NoEmptyMul l ∧ NoEmptyMul r := by simpa [NoEmptyMul] using h
     cases op with
     | equals => simp only [evalUnitName]; split <;> first | exact noPanic_ok _ | exact noPanic_err _
-    | add | sub | mod =>
+    | add | sub =>
       simp only [evalUnitName]
       apply noPanic_bind (evalUnitName_noPanic ctx hc l h'.1)
       intro a _
       apply noPanic_bind (evalUnitName_noPanic ctx hc r h'.2)
       intro b _
       split <;> first | exact noPanic_err _ | exact noPanic_ok _
+    | mod =>
+      simp only [evalUnitName]
+      apply noPanic_bind (evalUnitName_noPanic ctx hc l h'.1)
+      intro a _
+      apply noPanic_bind (evalUnitName_noPanic ctx hc r h'.2)
+      intro b _
+      split
+      · exact noPanic_err _
+      · exact noPanic_bind (rem_noPanic _ _) (fun _ _ => noPanic_ok _)
     | frac =>
       simp only [evalUnitName]
       apply noPanic_bind (evalUnitName_noPanic ctx hc l h'.1)
@@ -685,25 +701,9 @@ theorem evalUnitName_noPanic (ctx : Ctx) (hc : CtxOK ctx) : ∀ e : Expr, NoEmpt
       intro e _
       split
       · exact noPanic_err _
-      · split
-        · exact noPanic_unsupported _
-        · split
-          · exact noPanic_unsupported _
-          · apply noPanic_bind (evalUnitName_noPanic ctx hc l h'.1)
-            intro lv _
-            split
-            · exact noPanic_unsupported _
-            · split
-              · exact noPanic_unsupported _
-              · split
-                · exact noPanic_err _
-                · rename_i k _ _ _ hz
-                  apply noPanic_bind
-                  · apply numeric_pow_noPanic
-                    intro hk hv
-                    apply hz
-                    simp [hk, hv]
-                  · intro _ _; exact noPanic_ok _
+      · apply noPanic_bind (evalUnitName_noPanic ctx hc l h'.1)
+        intro lv _
+        exact noPanic_bind (pow_noPanic _ _) (fun _ _ => noPanic_ok _)
     | shl | shr => simp only [evalUnitName]; exact noPanic_err _
     | and | or | xor =>
       simp only [evalUnitName]
@@ -711,7 +711,7 @@ theorem evalUnitName_noPanic (ctx : Ctx) (hc : CtxOK ctx) : ∀ e : Expr, NoEmpt
       intro a _
       apply noPanic_bind (evalUnitName_noPanic ctx hc r h'.2)
       intro b _
-      split <;> first | exact noPanic_err _ | exact noPanic_ok _
+      exact unitNameBits_noPanic _ a b
 
 theorem unitNameFold_noPanic (ctx : Ctx) (hc : CtxOK ctx) :
     ∀ (es : List Expr) (acc : NameMap × Numeric), NoEmptyMul.NoEmptyMulList es →
